@@ -70,6 +70,7 @@ var errRefused = errors.New("connection refused")
 
 func (l *Listener) Accept() (net.Conn, error) {
 	vsched.PointWhenObj("accept", func() bool { return len(l.queue) > 0 || l.closed }, 0, l)
+	vsched.HBSync(l) // (happens-before: every operation on a listener / connection observes and publishes - a superset of the real edges)
 	if l.closed {
 		return nil, &net.OpError{Op: "accept", Net: "mem", Err: net.ErrClosed}
 	}
@@ -82,6 +83,7 @@ func (l *Listener) Accept() (net.Conn, error) {
 
 func (l *Listener) Close() error {
 	vsched.Point("lclose")
+	vsched.HBSync(l)
 	l.Closes++
 	l.net.log(Event{Op: "lclose"})
 	if l.closed {
@@ -104,6 +106,7 @@ func (l *Listener) IsClosed() bool { return l.closed }
 // Dial connects a client; it succeeds as long as the listener is open, whether or not Accept is pending.
 func (n *Net) Dial() (*Conn, error) {
 	vsched.PointObj("dial", n.L)
+	vsched.HBSync(n.L)
 	if n.L.closed {
 		n.log(Event{Side: "cli", Op: "dial", Err: "refused"})
 		return nil, &net.OpError{Op: "dial", Net: "mem", Err: errRefused}
@@ -153,6 +156,7 @@ func (c *Conn) Read(p []byte) (int, error) {
 	} else {
 		vsched.PointWhenObj("read", ready, dl, c.pair)
 	}
+	vsched.HBSync(c.pair)
 	if pastDeadline && !c.closed {
 		return 0, &net.OpError{Op: "read", Net: "mem", Err: os.ErrDeadlineExceeded}
 	}
@@ -173,6 +177,7 @@ func (c *Conn) Read(p []byte) (int, error) {
 
 func (c *Conn) Write(p []byte) (int, error) {
 	vsched.PointObj("write", c.pair)
+	vsched.HBSync(c.pair)
 	if c.closed {
 		c.net.log(Event{Conn: c.id, Side: c.side, Op: "write", Data: append([]byte(nil), p...), Err: "closed"})
 		return 0, &net.OpError{Op: "write", Net: "mem", Err: net.ErrClosed}
@@ -192,6 +197,7 @@ func (c *Conn) Write(p []byte) (int, error) {
 
 func (c *Conn) Close() error {
 	vsched.PointObj("close", c.pair)
+	vsched.HBSync(c.pair)
 	c.Closes++
 	if c.closed {
 		c.net.log(Event{Conn: c.id, Side: c.side, Op: "close", Err: "closed"})
